@@ -265,12 +265,27 @@ def write_error_code(buffer: Writable, error_code: ErrorCode) -> None:
     write_int16(buffer, error_code.value)
 
 
+_one_millisecond: Final = datetime.timedelta(milliseconds=1)
+
+
+def _timedelta_to_milliseconds(value: datetime.timedelta) -> int:
+    # Use exact integer arithmetic, total_seconds() returns a float which cannot
+    # represent durations beyond 2**53 milliseconds exactly.
+    milliseconds, remainder = divmod(value, _one_millisecond)
+    # Round half to even, like round() does.
+    if 2 * remainder > _one_millisecond or (
+        2 * remainder == _one_millisecond and milliseconds % 2
+    ):
+        milliseconds += 1
+    return milliseconds
+
+
 def write_timedelta_i32(buffer: Writable, value: i32Timedelta) -> None:
-    write_int32(buffer, round(value.total_seconds() * 1000))  # type: ignore[arg-type]
+    write_int32(buffer, _timedelta_to_milliseconds(value))  # type: ignore[arg-type]
 
 
 def write_timedelta_i64(buffer: Writable, value: i64Timedelta) -> None:
-    write_int64(buffer, round(value.total_seconds() * 1000))  # type: ignore[arg-type]
+    write_int64(buffer, _timedelta_to_milliseconds(value))  # type: ignore[arg-type]
 
 
 def write_datetime_i64(buffer: Writable, value: datetime.datetime) -> None:
